@@ -55,6 +55,18 @@ func (fr *Frame) step(in ssa.Instruction, cond T, st *State) T {
 			fr.env[i] = ref
 			return cond
 		}
+		if at, ok := types.Unalias(et).Underlying().(*types.Array); ok {
+			// arrays live in a fresh backing store; a *[N]T value is a fixed-length slice view of it
+			n := I(at.Len())
+			sv := fr.makeSlice(st, n, n, at.Elem(), true)
+			if s := structOf(types.Unalias(at.Elem())); s != nil && at.Len() <= 8 {
+				for k := int64(0); k < at.Len(); k++ {
+					vc.storeStructAt(st, vc.elemAddr(types.Unalias(at.Elem()), sv.Arr, I(k)), types.Unalias(at.Elem()), vc.zeroVal(at.Elem()))
+				}
+			}
+			fr.env[i] = sv
+			return cond
+		}
 		vc.ncell++
 		name := i.Comment
 		if name == "" {
